@@ -2,5 +2,6 @@ SPECIFICATION Spec
 CONSTANTS
   Window = 10
   AddStateFix = TRUE
+  FoundFix = TRUE
 POSTCONDITION Accepted
 CHECK_DEADLOCK FALSE
